@@ -8,6 +8,7 @@
 //!  d. every length in {0, 1, 255, 256, 65535, 65536, 65537, 131072} for every length-carrying parameter of every step;
 //!  f. the serde decoders of all 11 types on mutated bincode bytes and mutated JSON text (deletions, duplications,
 //!     replacements, truncations of the text the implementation itself produced);
+//!  g. degenerate random generators (constant, short period) on the operations without rejection sampling;
 //!  e. the key-pair API (PublicKey, PrivateKey, KeyPair, Diffie-Hellman, their serde forms, new_with_key, seeded
 //!     derivation) on all truncations, extensions, bit flips and 256 tape strings of a public and a private key.
 //! Oracle: every call returns Ok or Err (no panic, within the time limit); identities and contexts above 65535 bytes
@@ -291,6 +292,44 @@ fn sweep_lengths(api: &Api, seed: u64, cx: &mut Cx) {
     cx.sample(json!({"suite": api.name(), "sweep": "d", "lengths": lens, "parameters": ["password (4 steps)", "credential identifier (2 steps)", "client identity (3 steps)", "server identity (3 steps)", "context (2 steps)"]}));
 }
 
+/// sweep g: degenerate random generators (constant, short period).  Only operations that contain no rejection
+/// sampling are exercised (setup, new_with_key, registration finish, server login start with / without a record):
+/// they must terminate on every tape.  (The OPRF blind is sampled by rejection, as RFC 9497 prescribes, and may spin on a
+/// constant generator - that is not claimed.)  A hang is reported by the watchdog, whose limit is lowered for this sweep.
+fn sweep_degenerate(api: &Api, seed: u64, cx: &mut Cx) {
+    let p = setting(0);
+    let f = match honest(api, seed, "c12/g", &p) {
+        Ok(f) => f,
+        Err(e) => {
+            cx.violate_case("honest-step/error", e, json!({}));
+            return;
+        }
+    };
+    cx.context_done();
+    let sk = api.spec.field(Kind::Setup, "server_sk").of(&f.setup).to_vec();
+    for period in [0usize, 1, 2, 8, 32, 64] {
+        for lab in ["a", "b"] {
+            let mk = || Tape::degenerate(&format!("seed{}/c12/g/{}", seed, lab), period);
+            let ops: Vec<(&str, Box<dyn Fn() -> Result<(), E> + '_>)> = vec![
+                ("setup", Box::new(|| api.setup(&mut mk()).map(|_| ()))),
+                ("setup_with_key", Box::new(|| api.setup_with_key(&mut mk(), &sk).map(|_| ()))),
+                ("reg_finish", Box::new(|| api.reg_finish(&mut mk(), &Blob::n(&f.reg.creg), &p.pw, &Blob::n(&f.reg.resp), None, None, None).map(|_| ()))),
+                ("slogin_start", Box::new(|| api.slogin_start(&mut mk(), &Blob::n(&f.setup), Some(&Blob::n(&f.reg.file)), &Blob::n(&f.login.ke1), &p.cid, None, None, None).map(|_| ()))),
+                ("slogin_start(no record)", Box::new(|| api.slogin_start(&mut mk(), &Blob::n(&f.setup), None, &Blob::n(&f.login.ke1), &p.cid, None, None, None).map(|_| ()))),
+            ];
+            for (name, op) in ops {
+                cx.begin_case(json!({"sweep": "degenerate generator", "op": name, "generator": if period == 0 { "constant".to_string() } else { format!("period {} bytes", period) }, "label": lab}));
+                if !cx.state(&("degenerate", name, period, lab)) {
+                    continue;
+                }
+                judge(cx, op());
+                cx.drain_panics();
+            }
+        }
+    }
+    cx.sample(json!({"suite": api.name(), "sweep": "g", "generators": ["constant", "period 1/2/8/32/64"], "ops": ["setup", "setup_with_key", "reg_finish", "slogin_start", "slogin_start(no record)"]}));
+}
+
 /// sweep f: the serde decoders (bincode, JSON) of every message / state type on mutations of the serde form the
 /// implementation itself produced: bincode - truncations, extensions, bit flips; JSON text - every single-character
 /// deletion, duplication and replacement (by a small alphabet), every truncation
@@ -447,6 +486,10 @@ pub fn run(tier: Tier, seed: u64) -> i32 {
         }
     }
     tot.merge(fw::run_items("C12", &sitems, |(a, _)| a.name().to_string(), |(api, k), cx| sweep_serde(api, *k, tier, seed, cx)));
+    // last, with a lowered hang limit: degenerate generators
+    crate::api::HANG_LIMIT_OVERRIDE_MS.store(20_000, std::sync::atomic::Ordering::Relaxed);
+    tot.merge(fw::run_items("C12", &apis, |a| a.name().to_string(), |api, cx| sweep_degenerate(api, seed, cx)));
+    crate::api::HANG_LIMIT_OVERRIDE_MS.store(0, std::sync::atomic::Ordering::Relaxed);
     if tot.slow_calls > 0 {
         tot.machinery_errors.push(format!("{} call(s) exceeded the {} ms limit (max {} ms): re-run to confirm; a reproducible hang is a C12 violation", tot.slow_calls, crate::api::SLOW_MS, tot.max_call_ms));
     }
